@@ -75,7 +75,8 @@ RandStr(k) == Lehmer(1 + ((k * 7919 + Seed * 104729) % 65536), 3 + (k % 62))
 (* matching END line is refused (type 0, no data).  (A block WITHOUT checksum line is not a case: the     *)
 (* checksum is optional in RFC 4880 6.1, but the property makes no claim about such blocks.)              *)
 Faults == << "none", "crcflip", "crcother", "crcshort", "crcgluedtail", "dataflip",
-             "nested", "nestedbegin", "nosep", "noend", "endfirst", "wrongend", "lf", "wsblank" >>
+             "nested", "nestedbegin", "nosep", "noend", "endfirst", "wrongend", "lf", "wsblank",
+             "nestedhdr", "nestedhdrsame", "nestedhdrfull" >>
 BadLens == <<1, 2, 3, 47, 48, 49, 100>>
 FlipChar(c) == IF c = 65 THEN 66 ELSE 65             \* another radix-64 character
 NotCR(c) == c # 13
@@ -95,6 +96,10 @@ ArmorFault(t, b, f) ==
        [] f = "dataflip" -> head \o EOL \o [data EXCEPT ![1] = FlipChar(data[1])] \o EOL \o crc \o EOL \o tail
        [] f = "nested"   -> head \o EOL \o data \o EOL \o inner \o crc \o EOL \o tail
        [] f = "nestedbegin" -> head \o EOL \o HeaderLine(t) \o EOL \o EOL \o data \o EOL \o crc \o EOL \o tail
+       \* another block's BEGIN line (and END line) among the armor header lines, before the blank separator
+       [] f = "nestedhdr"     -> head \o HeaderLine(t2) \o EOL \o EOL \o data \o EOL \o crc \o EOL \o tail
+       [] f = "nestedhdrsame" -> head \o HeaderLine(t) \o EOL \o EOL \o data \o EOL \o crc \o EOL \o tail
+       [] f = "nestedhdrfull" -> head \o HeaderLine(t2) \o EOL \o TailLine(t2) \o EOL \o EOL \o data \o EOL \o crc \o EOL \o tail
        [] f = "nosep"    -> head \o data \o EOL \o crc \o EOL \o tail
        [] f = "noend"    -> head \o EOL \o data \o EOL \o crc \o EOL
        [] f = "endfirst" -> tail \o EOL \o data \o EOL \o crc \o EOL \o head
